@@ -32,8 +32,9 @@ Definition plaintext (c : cookie) : bytes := be_enc 2 (c_alg c) ++ c_s2c c ++ c_
 
 (* what key exchange produces: a known algorithm with keys of its width *)
 Definition wf_cookie (c : cookie) : Prop :=
-  (c_alg c = ALG_SIV_CMAC_256 /\ lenZ (c_s2c c) = KEY_WIDTH_256 /\ lenZ (c_c2s c) = KEY_WIDTH_256) \/
-  (c_alg c = ALG_SIV_CMAC_512 /\ lenZ (c_s2c c) = KEY_WIDTH_512 /\ lenZ (c_c2s c) = KEY_WIDTH_512).
+  bytes_ok (c_s2c c) /\ bytes_ok (c_c2s c) /\
+  ((c_alg c = ALG_SIV_CMAC_256 /\ lenZ (c_s2c c) = KEY_WIDTH_256 /\ lenZ (c_c2s c) = KEY_WIDTH_256) \/
+   (c_alg c = ALG_SIV_CMAC_512 /\ lenZ (c_s2c c) = KEY_WIDTH_512 /\ lenZ (c_c2s c) = KEY_WIDTH_512)).
 
 (* ---------------------------------------------------------------- key sets *)
 
@@ -116,7 +117,51 @@ Section Cookies.
         | Some p => parse_plaintext p
         end
     end.
+  (* INT-CTXT for one presented byte string [b]: if its ciphertext part is
+     valid under a server key then that (key, nonce, ciphertext) was produced
+     by the server (is in [issued]).  This is the idealisation "forgery
+     probability zero"; it is a premise about the presented bytes, used by the
+     tamper theorem, not an assumption about [dec]. *)
+  Definition unforged (ks : keyset) (issued : list (bytes * bytes * bytes)) (b : bytes) : Prop :=
+    forall k p, In k (keys ks) -> dec k (ck_nonce b) [] (ck_ct b) = Some p ->
+      In (k, ck_nonce b, ck_ct b) issued.
 End Cookies.
+
+(* The AEAD interface: what the theorems assume about enc/dec (all of them
+   about well-typed byte strings).  The first four are facts of every
+   deterministic AEAD with a 16-byte tag whose decryption re-derives the tag
+   (AES-SIV, RFC 5297); the fifth is an idealisation (holds for independent
+   random keys up to a negligible probability). *)
+Definition enc_t := bytes -> bytes -> bytes -> bytes -> bytes.
+Definition dec_t := bytes -> bytes -> bytes -> bytes -> option bytes.
+Definition aead_correct (enc : enc_t) (dec : dec_t) : Prop :=
+  forall k n a p, bytes_ok p -> dec k n a (enc k n a p) = Some p.
+Definition aead_sound (enc : enc_t) (dec : dec_t) : Prop :=
+  forall k n a c p, dec k n a c = Some p -> c = enc k n a p.
+Definition aead_tag16 (enc : enc_t) : Prop :=
+  forall k n a p, lenZ (enc k n a p) = lenZ p + ENCODE_TAG_LEN.
+Definition aead_bytes (dec : dec_t) : Prop :=
+  forall k n a c p, dec k n a c = Some p -> bytes_ok p.
+Definition aead_key_separation (enc : enc_t) (dec : dec_t) : Prop :=
+  forall k k' n n' a a' p p', bytes_ok k -> bytes_ok k' ->
+    dec k' n' a' (enc k n a p) = Some p' -> k' = k.
+
+(* A toy AEAD that satisfies all five hypotheses (Proofs/KeySet.v, the toy_ lemmas): shows
+   that they are jointly satisfiable, and runs the non-vacuity examples.  The
+   "tag" records key, nonce and associated data as numbers. *)
+Fixpoint bytes_eqb (a b : bytes) : bool :=
+  match a, b with
+  | [], [] => true
+  | x :: a', y :: b' => (x =? y) && bytes_eqb a' b'
+  | _, _ => false
+  end.
+Definition toy_tag (k n a : bytes) : bytes :=
+  [lenZ k; be_dec k; lenZ n; be_dec n; lenZ a; be_dec a; 0; 0; 0; 0; 0; 0; 0; 0; 0; 0].
+Definition toy_enc : enc_t := fun k n a p => p ++ toy_tag k n a.
+Definition all_bytes (p : bytes) : bool := forallb (fun b => (0 <=? b) && (b <? 256)) p.
+Definition toy_dec : dec_t := fun k n a c =>
+  let p := firstn (length c - 16) c in
+  if (16 <=? length c)%nat && bytes_eqb c (toy_enc k n a p) && all_bytes p then Some p else None.
 
 (* ---------------------------------------------------------------- well-formedness *)
 
@@ -136,13 +181,6 @@ Definition newest (ks : keyset) : Prop := KeysOk ks /\ primary ks = lenZ (keys k
 Fixpoint unpack_acc (n : nat) (z : Z) (acc : bytes) : bytes :=
   match n with O => acc | S m => unpack_acc m (z / 256) (z mod 256 :: acc) end.
 Definition B (n : Z) (z : Z) : bytes := unpack_acc (Z.to_nat n) z [].
-
-Fixpoint bytes_eqb (a b : bytes) : bool :=
-  match a, b with
-  | [], [] => true
-  | x :: a', y :: b' => (x =? y) && bytes_eqb a' b'
-  | _, _ => false
-  end.
 
 (* table of genuine encryptions, produced and verified with the real cipher by
    the harness: (key, nonce, plaintext, ciphertext) *)
